@@ -12,7 +12,9 @@
    operands that mention allocated variables only.
    At the operator level (through the Python operator dispatch of Model/Api.v, Proofs/OpValues.v): x < y, x <= y, x == y,
    x * y, x // y, x % y on two secret integers, and x < k, k < y (reflected), x // k with an int k (the C05_op_ theorems).
-   NOT proved in Coq: the remaining operand-kind combinations (bool, other reflected operators), shifts, bitwise operators on whole
+   Also at the operator level: +, -, unary -, * with an int on either side, >, >=, !=, == with an int, exact division, and the
+   connectives &, |, ^, ~ on secret booleans.
+   NOT proved in Coq: the remaining operand-kind combinations (bool with int, other reflected operators), shifts, bitwise operators on whole
    numbers, powers, abs, division inside the domain; they are decided by the differential check of the real code against a
    plain-integer reference on an operator x operand-kind matrix and random programs. *)
 From Coq Require Import ZArith List Bool Lia Znumtheory.
@@ -82,6 +84,43 @@ Theorem C05_op_lt_int_secret : forall k y, returns (pyop c OLt (PInt k) (PLC y))
 Proof. exact (op_lt_int_left ins ig c s sg I Chk). Qed.
 Theorem C05_op_floordiv_secret_int : forall x k, returns (pyop c OFloorDiv (PLC x) (PInt k)) s sg (islc (fun r => r = v x / k)).
 Proof. exact (op_floordiv_int ins ig c s sg I). Qed.
+Theorem C05_op_add : forall x y, returns (pyop c OAdd (PLC x) (PLC y)) s sg (islc (fun r => r = v x + v y)).
+Proof. first [exact (op_add ins ig c s sg)|exact (op_add ins ig c s sg I)]. Qed.
+Theorem C05_op_sub : forall x y, returns (pyop c OSub (PLC x) (PLC y)) s sg (islc (fun r => r = v x - v y)).
+Proof. first [exact (op_sub ins ig c s sg)|exact (op_sub ins ig c s sg I)]. Qed.
+Theorem C05_op_add_secret_int : forall x k, returns (pyop c OAdd (PLC x) (PInt k)) s sg (islc (fun r => r = v x + k)).
+Proof. first [exact (op_add_int ins ig c s sg)|exact (op_add_int ins ig c s sg I)]. Qed.
+Theorem C05_op_add_int_secret : forall k x, returns (pyop c OAdd (PInt k) (PLC x)) s sg (islc (fun r => r = k + v x)).
+Proof. first [exact (op_radd_int ins ig c s sg)|exact (op_radd_int ins ig c s sg I)]. Qed.
+Theorem C05_op_sub_secret_int : forall x k, returns (pyop c OSub (PLC x) (PInt k)) s sg (islc (fun r => r = v x - k)).
+Proof. first [exact (op_sub_int ins ig c s sg)|exact (op_sub_int ins ig c s sg I)]. Qed.
+Theorem C05_op_sub_int_secret : forall k x, returns (pyop c OSub (PInt k) (PLC x)) s sg (islc (fun r => r = k - v x)).
+Proof. first [exact (op_rsub_int ins ig c s sg)|exact (op_rsub_int ins ig c s sg I)]. Qed.
+Theorem C05_op_mul_secret_int : forall x k, returns (pyop c OMul (PLC x) (PInt k)) s sg (islc (fun r => r = v x * k)).
+Proof. first [exact (op_mul_int ins ig c s sg)|exact (op_mul_int ins ig c s sg I)]. Qed.
+Theorem C05_op_mul_int_secret : forall k x, returns (pyop c OMul (PInt k) (PLC x)) s sg (islc (fun r => r = k * v x)).
+Proof. first [exact (op_rmul_int ins ig c s sg)|exact (op_rmul_int ins ig c s sg I)]. Qed.
+Theorem C05_op_neg : forall x, returns (unop c (pyop c) UNeg (PLC x)) s sg (islc (fun r => r = - v x)).
+Proof. first [exact (op_neg ins ig c s sg)|exact (op_neg ins ig c s sg I)]. Qed.
+Theorem C05_op_gt : forall x y, returns (pyop c OGt (PLC x) (PLC y)) s sg (isb (fun r => r = b2z (v y <? v x))).
+Proof. exact (op_gt ins ig c s sg I Chk). Qed.
+Theorem C05_op_ge : forall x y, returns (pyop c OGe (PLC x) (PLC y)) s sg (isb (fun r => r = b2z (v y <=? v x))).
+Proof. exact (op_ge ins ig c s sg I Chk). Qed.
+Theorem C05_op_ne : forall x y, returns (pyop c ONe (PLC x) (PLC y)) s sg (isb (fun r => r = b2z (negb (v x =? v y)))).
+Proof. exact (op_ne ins ig (field_ok_prime p Hp) c s sg I). Qed.
+Theorem C05_op_eq_secret_int : forall x k, returns (pyop c OEq (PLC x) (PInt k)) s sg (isb (fun r => r = b2z (v x =? k))).
+Proof. exact (op_eq_int ins ig (field_ok_prime p Hp) c s sg I). Qed.
+Theorem C05_op_truediv : forall x y, returns (pyop c OTrueDiv (PLC x) (PLC y)) s sg (islc (fun r => r = v x / v y /\ v x mod v y = 0 /\ v y <> 0)).
+Proof. exact (op_truediv ins ig c s sg I Chk). Qed.
+(* secret booleans: on 0/1 values a*b, a+b-a*b, a+b-2ab, 1-a are Python's and, or, xor, not *)
+Theorem C05_op_bool_and : forall o o' a b, returns (pyop c OAnd (PBool o a) (PBool o' b)) s sg (isb (fun r => r = v a * v b)).
+Proof. exact (op_bool_and ins ig c s sg I). Qed.
+Theorem C05_op_bool_or : forall o o' a b, returns (pyop c OOr (PBool o a) (PBool o' b)) s sg (isb (fun r => r = v a + v b - v a * v b)).
+Proof. exact (op_bool_or ins ig c s sg I). Qed.
+Theorem C05_op_bool_xor : forall o o' a b, returns (pyop c OXor (PBool o a) (PBool o' b)) s sg (isb (fun r => r = v a + v b - 2 * v a * v b)).
+Proof. exact (op_bool_xor ins ig c s sg I). Qed.
+Theorem C05_op_bool_not : forall o a, returns (unop c (pyop c) UInvert (PBool o a)) s sg (isb (fun r => r = 1 - v a)).
+Proof. first [exact (op_bool_not ins ig c s sg)|exact (op_bool_not ins ig c s sg I)]. Qed.
 End C05.
 
 (* ---- inside the documented domain the operations do not raise (and return the Python value) ---- *)
@@ -129,6 +168,24 @@ Example C05_example :
 Proof. vm_compute. split; reflexivity. Qed.
 
 Print Assumptions C05_op_lt.
+Print Assumptions C05_op_bool_and.
+Print Assumptions C05_op_bool_or.
+Print Assumptions C05_op_bool_xor.
+Print Assumptions C05_op_bool_not.
+Print Assumptions C05_op_add.
+Print Assumptions C05_op_sub.
+Print Assumptions C05_op_add_secret_int.
+Print Assumptions C05_op_add_int_secret.
+Print Assumptions C05_op_sub_secret_int.
+Print Assumptions C05_op_sub_int_secret.
+Print Assumptions C05_op_mul_secret_int.
+Print Assumptions C05_op_mul_int_secret.
+Print Assumptions C05_op_neg.
+Print Assumptions C05_op_gt.
+Print Assumptions C05_op_ge.
+Print Assumptions C05_op_ne.
+Print Assumptions C05_op_eq_secret_int.
+Print Assumptions C05_op_truediv.
 Print Assumptions C05_op_lt_int_secret.
 Print Assumptions C05_lt_in_domain.
 Print Assumptions C05_eq_in_domain.
